@@ -13,6 +13,8 @@
 #include <AIToolbox/MDP/SparseModel.hpp>
 #include <AIToolbox/POMDP/Model.hpp>
 #include <AIToolbox/POMDP/SparseModel.hpp>
+#include <AIToolbox/Factored/MDP/CooperativeModel.hpp>
+#include <AIToolbox/Factored/MDP/Environments/SysAdmin.hpp>
 
 using namespace verif;
 namespace AI = AIToolbox;
@@ -250,7 +252,7 @@ static T3 genTable(Rng & rng, size_t S, size_t A, size_t N, bool sparseish) {
     T3 t(S, std::vector<std::vector<double>>(A));
     for (size_t s = 0; s < S; ++s) for (size_t a = 0; a < A; ++a) {
         int shape;
-        do { t[s][a] = genProb(rng, N, shape); } while (shape >= 5 && shape != 7 && sparseish);   // sparse models: keep sums exact (entries <= 1e-6 are dropped)
+        do { t[s][a] = genProb(rng, N, shape); } while (shape == 5 && sparseish);   // sparse model objects: no row sum below one (their engine cannot be scripted; the walk-off is witness case 12)
     }
     return t;
 }
@@ -306,8 +308,62 @@ static void emit_models(Rng & rng, int nsamples) {
     else { AI::POMDP::SparseModel<AI::MDP::SparseModel> pm(O, o, S, A, t, r, 0.9); run(pm, "sparse"); }
 }
 
+// Factored model: one independent row scan per state factor, all from the object's own engine.
+static void emit_factored(Rng & rng, int nsamples) {
+    namespace FM = AI::Factored::MDP;
+    const unsigned root = (unsigned)rng.next();
+    const unsigned agents = (unsigned)rng.range(3, 5);
+    auto dy = [&]() { return (double)rng.range(1, 6) / 16.0; };
+    const double pf = dy(), pfb = dy(), pd = dy(), pdb = dy(), pl = dy(), pg = dy() + 0.5, pff = dy();
+    AI::Seeder::setRootSeed(root);
+    auto model = rng.coin() ? FM::makeSysAdminUniRing(agents, pf, pfb, pd, pdb, pl, pg, pff) : FM::makeSysAdminBiRing(agents, pf, pfb, pd, pdb, pl, pg, pff);
+    AI::Seeder::setRootSeed(root);
+    std::mt19937 mir(AI::Seeder::getSeed());
+    std::uniform_real_distribution<double> d01(0.0, 1.0);
+    const auto & S = model.getS(); const auto & A = model.getA();
+    for (int t = 0; t < nsamples; ++t) {
+        AI::Factored::State s(S.size()); AI::Factored::Action a(A.size());
+        for (size_t i = 0; i < S.size(); ++i) s[i] = rng.below(S[i]);
+        for (size_t i = 0; i < A.size(); ++i) a[i] = rng.below(A[i]);
+        std::vector<double> us; for (size_t i = 0; i < S.size(); ++i) us.push_back(d01(mir));
+        auto [s1, rew] = model.sampleSR(s, a);
+        Line l; l << "C08" << "fsr" << (size_t)S.size();
+        for (size_t i = 0; i < S.size(); ++i) {
+            const auto j = model.getGraph().getId(i, s, a);
+            std::vector<double> row; rowOf(model.getTransitionFunction().transitions[i], j, row);
+            l.nums(row);
+        }
+        l.nums(us); l << model.getExpectedReward(s, a, s1) << "|"; l.nats(s1); l << rew; l.emit();
+    }
+}
+
+// The sparse walk-off through the public API: MDP::SparseModel stores a row summing to 1-2^-20
+// (accepted by isProbability); the object's mt19937 is mirrored to find the first draw at or above
+// the row sum, the object is advanced to that draw, and the sampled next state is reported.
+static void emit_sparse_model_witness() {
+    const double e20 = std::ldexp(1.0, -20), sum = 1.0 - e20;
+    T3 t(3, std::vector<std::vector<double>>(1)), r(3, std::vector<std::vector<double>>(1, std::vector<double>(3, 0.0)));
+    t[0][0] = {0.5, 0.0, 0.5 - e20}; t[1][0] = {0.0, 1.0, 0.0}; t[2][0] = {0.0, 0.0, 1.0};
+    std::uniform_real_distribution<double> d01(0.0, 1.0);
+    unsigned bestRoot = 0; long best = -1; double bestU = 0;
+    for (unsigned root = 1; root <= 6; ++root) {
+        AI::Seeder::setRootSeed(root);
+        std::mt19937 mir(AI::Seeder::getSeed());
+        const long cap = best < 0 ? 8000000 : best;
+        for (long i = 0; i < cap; ++i) { double u = d01(mir); if (u >= sum) { best = i; bestRoot = root; bestU = u; break; } }
+    }
+    if (best < 0) { std::printf("#stat sparse_model_witness_not_found 1\n"); return; }
+    AI::Seeder::setRootSeed(bestRoot);
+    AI::MDP::SparseModel m(3, 1, t, r, 0.9);
+    for (long i = 0; i < best; ++i) m.sampleSR(0, 0);
+    auto [s1, rew] = m.sampleSR(0, 0);
+    std::vector<double> row; rowOf(m.getTransitionFunction(0), 0, row);
+    std::printf("#stat sparse_model_witness_draw_index %ld\n", best);
+    Line l; l << "C08" << "sr" << "sparse"; l.nums(row); l << bestU << m.getExpectedReward(0, 0, 0) << "|" << s1 << rew; l.emit();
+}
+
 // ---------------------------------------------------------------- cases
-static const long kWitness = 12;
+static const long kWitness = 13;
 
 long verif::verif_ncases(const std::string & tier) { return kWitness + (tier == "thorough" ? 12000 : 700); }
 
@@ -328,6 +384,7 @@ static void witness(Rng & rng, long idx) {
         case 8: emit_vose(rng, {0.0, 0.25, 0.25, 0.5}, 8); break;                // first entry below average, still wrong
         case 9: emit_vose(rng, {0.125, 0.25, 0.125, 0.5}, 8); break;
         case 10: emit_rand({TWO53 / 2, TWO53 / 4, TWO53 / 4, 0, TWO53 - 1}); break;
+        case 12: emit_sparse_model_witness(); break;
         default: emit_rand({}); break;                                           // S = 1
     }
 }
@@ -336,7 +393,7 @@ void verif::verif_case(Rng & rng, long idx, const std::string & tier) {
     if (idx < kWitness) { witness(rng, idx); return; }
     const bool thorough = tier == "thorough";
     const size_t maxN = thorough ? 64 : 12;
-    int fam = (int)((idx - kWitness) % 7);
+    int fam = (int)((idx - kWitness) % 8);
     size_t n = (size_t)rng.range(1, rng.coin(3, 4) ? 8 : (long)maxN);
     int shape = 0;
     switch (fam) {
@@ -379,7 +436,8 @@ void verif::verif_case(Rng & rng, long idx, const std::string & tier) {
             emit_vose(rng, p, 6);
             break;
         }
-        default: emit_models(rng, thorough ? 12 : 8); std::printf("#stat models 1\n"); break;
+        case 6: emit_models(rng, thorough ? 12 : 8); std::printf("#stat models 1\n"); break;
+        default: emit_factored(rng, thorough ? 8 : 4); std::printf("#stat factored_models 1\n"); break;
     }
 }
 
